@@ -9,4 +9,5 @@ mkdir -p bin evidence replays coq/gen
 cp /repo/go.sum harness/go.sum
 (cd harness && timeout 1500 go build -tags verif -o ../bin/harness .)
 (cd tools/xlate && timeout 1500 go build -o ../../bin/xlate .)
+(cd tools/curvesync && timeout 600 go build -o ../../bin/curvesync .)
 echo setup ok
